@@ -47,21 +47,22 @@ type Assn struct {
 }
 
 type Resp struct {
-	Dest, IRT string
-	II        int64
-	Issuer    *string
-	Status    string
-	Entries   []Assn
-	Sig       string
+	Dest, IRT    string
+	II           int64
+	Issuer       *string
+	Status       string
+	StatusNested []string // StatusCode elements nested below the top-level one (must not matter)
+	Entries      []Assn
+	Sig          string
 }
 
 type SPCfg struct {
 	IDPEntity, Acs, EntityID, MetadataURL string
-	AllowIDP                             bool
-	ReqV, AudV                           string // n | t | f
-	Delay, Skew                          int64  // ms
-	Success                              string
-	Trust                                []string // key names trusted as IdP signing certs
+	AllowIDP                              bool
+	ReqV, AudV                            string // n | t | f
+	Delay, Skew                           int64  // ms
+	Success                               string
+	Trust                                 []string // key names trusted as IdP signing certs
 }
 
 func sp(s string) *string { return &s }
@@ -267,6 +268,11 @@ func (b *builder) responseEl(r Resp) *etree.Element {
 	}
 	if r.Issuer != nil {
 		rs.Issuer = &saml.Issuer{Value: *r.Issuer}
+	}
+	inner := &rs.Status.StatusCode
+	for _, v := range r.StatusNested {
+		inner.StatusCode = &saml.StatusCode{Value: v}
+		inner = inner.StatusCode
 	}
 	el := rs.Element()
 	setTimeAttr(el, "IssueInstant", r.II, b.lexStyle+4)
